@@ -640,10 +640,36 @@ def run (s : State) : List Step → Option State
 
 end
 
-/-- Reachability by arbitrary schedules. -/
-inductive Reach (P : Params) (A : Assembler) (script : List Item) : State → Prop where
-  | init : Reach P A script (init P)
-  | step {s s' : State} {a : Step} :
-      Reach P A script s → step P A script s a = some s' → Reach P A script s'
+/-! ### Restart: a further session on the same handle -/
+
+/-- `start_streaming_loop` may begin a new session once the previous one has been stopped (or the
+handle closed) AND its loop thread has returned: the new loop thread first takes the receive-channel
+lock, which the old one holds until it leaves `run`. -/
+def canRestart (s : State) : Prop := s.pc = .exited ∧ (s.ctl = .stopOk ∨ s.ctl = .closed)
+
+instance (s : State) : Decidable (canRestart s) := by unfold canRestart; exact inferInstance
+
+/-- The state in which the next session starts, with new stream parameters `P'` (the layout may
+change between sessions) and — as `Camera::start_streaming` does — a NEW pair of channels.
+What carries over: the payloads the receiver still holds (it may hand them back in the new session,
+as buffers of a foreign size), the buffer identities allocated so far, the freed set.  What the old
+channels still contained is dropped with them.  Nothing is outstanding (`pc = exited`).
+The per-session history (`sentLog`, `recvLog`, `faults`, device script position) starts afresh. -/
+def restartState (P' : Params) (s : State) : State :=
+  { init P' with
+    nextBuf := s.nextBuf
+    held := s.held
+    freed := s.freed ++ s.chan.filterMap msgBufId ++ s.back.map (·.buf.id) }
+
+/-- Reachability by arbitrary schedules over ANY NUMBER OF SESSIONS: `Reach P A script s` holds for
+the states `s` of a session with parameters `P` and device script `script` that either is the first
+one on the handle (`init`) or was started (`restart`) from a stopped/closed state reachable in an
+earlier session with possibly other parameters and script. -/
+inductive Reach (A : Assembler) : Params → List Item → State → Prop where
+  | init {P : Params} {script : List Item} : Reach A P script (init P)
+  | restart {P0 P : Params} {script0 script : List Item} {s0 : State} :
+      Reach A P0 script0 s0 → canRestart s0 → Reach A P script (restartState P s0)
+  | step {P : Params} {script : List Item} {s s' : State} {a : Step} :
+      Reach A P script s → step P A script s a = some s' → Reach A P script s'
 
 end CamVerif.StreamLoop
